@@ -26,7 +26,7 @@ struct ParentM {
 }
 
 #[metrics]
-#[derive(Default)]
+#[derive(Default, Debug)]
 struct Child0 {
     v0: u64,
 }
@@ -49,6 +49,9 @@ enum Op {
     DropGuard(usize),
     /// the guard is dropped by a panic unwinding through its owner (still a drop: the value counts)
     DropGuardUnwinding(usize),
+    /// delay_flush() with a fresh flush guard of the parent on a guard that is open in EITHER mode
+    /// (a guard already in wait mode stays in wait mode)
+    DelayFlush(usize),
     WaitForData, // slot 0 only; may be called repeatedly
     MutateParent,
     DropParent,
@@ -69,6 +72,7 @@ struct Model {
     xy: (u64, u64),
     slots: [SlotState; 2],
     waited: u8,
+    delays: u8,
     force_alive: u32,
     force_created: u32,
     force_fired: bool,
@@ -80,7 +84,7 @@ struct Model {
 
 impl Model {
     fn new() -> Self {
-        Model { parent_alive: true, xy: (1, 2), slots: [SlotState::Unopened; 2], waited: 0, force_alive: 0, force_created: 0, force_fired: false, parent_mutations: 0, next_token: 100, emitted: None }
+        Model { parent_alive: true, xy: (1, 2), slots: [SlotState::Unopened; 2], waited: 0, delays: 0, force_alive: 0, force_created: 0, force_fired: false, parent_mutations: 0, next_token: 100, emitted: None }
     }
     fn due(&self) -> bool {
         !self.parent_alive && (self.force_fired || !self.slots.iter().any(|s| matches!(s, SlotState::Open { wait: true, .. })))
@@ -115,6 +119,13 @@ impl Model {
                 v.push(Op::CreateForce);
             }
             v.push(Op::DropParent);
+            if self.delays < 1 {
+                for i in 0..2 {
+                    if matches!(self.slots[i], SlotState::Open { .. }) {
+                        v.push(Op::DelayFlush(i));
+                    }
+                }
+            }
         }
         for i in 0..2 {
             if matches!(self.slots[i], SlotState::Open { .. }) {
@@ -152,6 +163,12 @@ impl Model {
                 }
             }
             Op::WaitForData => self.waited += 1,
+            Op::DelayFlush(i) => {
+                if let SlotState::Open { wait, .. } = &mut self.slots[i] {
+                    *wait = true;
+                }
+                self.delays += 1;
+            }
             Op::MutateParent => {
                 self.xy = (self.next_token, self.next_token + 1);
                 self.next_token += 2;
@@ -254,6 +271,15 @@ impl Real {
                     std::panic::panic_any(IntentionalPanic);
                 }));
                 assert!(r.is_err());
+                None
+            }
+            Op::DelayFlush(i) => {
+                let fg = self.parent.as_ref().unwrap().flush_guard();
+                if i == 0 {
+                    self.g0.as_mut().unwrap().delay_flush(fg);
+                } else {
+                    self.g1.as_mut().unwrap().delay_flush(fg);
+                }
                 None
             }
             Op::WaitForData => {
@@ -440,8 +466,42 @@ fn concurrent_history(rng: &mut Rng, rep: &Report) -> Option<u64> {
     let mode0 = if wait0 { OnParentDrop::Wait(parent.flush_guard()) } else { OnParentDrop::Discard };
     let mut g0 = parent.s0.open(mode0).expect("first open");
     g0.v0 = tok;
+    // a read-only observer may Debug-format slot 0's wait-mode guard on another thread at the very
+    // moment the flush guard for slot 1 is taken (formatting a guard must not change what a flush
+    // guard created meanwhile does)
+    let observed = use1 && wait0 && wait1 && rng.below(2) == 0;
     let g1 = if use1 {
-        let mode1 = if wait1 { OnParentDrop::Wait(parent.flush_guard()) } else { OnParentDrop::Discard };
+        let mode1 = if !wait1 {
+            OnParentDrop::Discard
+        } else if observed {
+            let gate = Barrier::new(2);
+            let stop = std::sync::atomic::AtomicBool::new(false);
+            let spins = rng.below(400);
+            let fg = std::thread::scope(|s| {
+                s.spawn(|| {
+                    use std::fmt::Write;
+                    gate.wait();
+                    let mut buf = String::new();
+                    let mut n = 0u64;
+                    while !stop.load(std::sync::atomic::Ordering::SeqCst) || n == 0 {
+                        buf.clear();
+                        let _ = write!(buf, "{:?}", g0);
+                        n += 1;
+                    }
+                    rep.count("debug_formats_of_a_wait_mode_guard_while_a_flush_guard_was_taken", n);
+                });
+                gate.wait();
+                for _ in 0..spins {
+                    std::hint::spin_loop();
+                }
+                let fg = parent.flush_guard();
+                stop.store(true, std::sync::atomic::Ordering::SeqCst);
+                fg
+            });
+            OnParentDrop::Wait(fg)
+        } else {
+            OnParentDrop::Wait(parent.flush_guard())
+        };
         let mut g = parent.s1.open(Child1 { v1: 0 }, mode1).expect("first open");
         g.v1 = tok + 1;
         Some(g)
@@ -521,7 +581,7 @@ fn concurrent_history(rng: &mut Rng, rep: &Report) -> Option<u64> {
         }
     }
     let apps = sink.take();
-    let witness = |what: &str| json!({"what": what, "parent_waits_for_data": waits, "guards_dropped_by_unwinding(bit0=slot0,bit1=slot1)": unwinding_mask, "slot0_wait": wait0, "slot1": if use1 { Some(wait1) } else { None }, "force_guard": has_force, "drops(kind,start,end)": format!("{drops:?}"), "appends": apps.iter().map(|a| (a.ticket, format!("{:?}", content(a)))).collect::<Vec<_>>()});
+    let witness = |what: &str| json!({"what": what, "parent_waits_for_data": waits, "guards_dropped_by_unwinding(bit0=slot0,bit1=slot1)": unwinding_mask, "slot0_guard_debug_formatted_while_slot1_flush_guard_taken": observed, "slot0_wait": wait0, "slot1": if use1 { Some(wait1) } else { None }, "force_guard": has_force, "drops(kind,start,end)": format!("{drops:?}"), "appends": apps.iter().map(|a| (a.ticket, format!("{:?}", content(a)))).collect::<Vec<_>>()});
     if apps.len() != 1 {
         rep.violation(if apps.is_empty() { "entry-never-appended" } else { "entry-appended-twice" }, witness("exactly one append expected"));
         return None;
@@ -576,8 +636,86 @@ fn concurrent_history(rng: &mut Rng, rep: &Report) -> Option<u64> {
             }
         }
     }
-    Some(Fnv::new().u64(waits).u64(unwinding_mask).u64(wait0 as u64).u64(wait1 as u64 + 2 * use1 as u64).u64(has_force as u64).u64(c.2.is_some() as u64).u64(c.3.is_some() as u64)
+    Some(Fnv::new().u64(waits).u64(observed as u64).u64(unwinding_mask).u64(wait0 as u64).u64(wait1 as u64 + 2 * use1 as u64).u64(has_force as u64).u64(c.2.is_some() as u64).u64(c.3.is_some() as u64)
         .u64(drops.iter().map(|x| x.1).enumerate().min_by_key(|x| x.1).map(|x| x.0 as u64).unwrap_or(0)).finish() | 1)
+}
+
+// ------------------------------------------------------------------------------------------
+// a read-only observer Debug-formats a wait-mode guard of an entry at the moment a further flush
+// guard of that entry is taken: many short rounds against one persistent observer thread
+
+fn observed_flush_guard_rounds(rng: &mut Rng, n: usize, rep: &Report) -> bool {
+    use std::sync::atomic::{AtomicBool, Ordering::SeqCst};
+    let shared: std::sync::Mutex<Option<Arc<SlotGuard<Child0>>>> = std::sync::Mutex::new(None);
+    let gate = Barrier::new(2);
+    let (stop, quit) = (AtomicBool::new(false), AtomicBool::new(false));
+    let mut ok = true;
+    std::thread::scope(|s| {
+        s.spawn(|| {
+            use std::fmt::Write;
+            let mut buf = String::new();
+            let mut formats = 0u64;
+            loop {
+                gate.wait();
+                if quit.load(SeqCst) {
+                    break;
+                }
+                let g = shared.lock().unwrap().take().expect("guard published");
+                let mut first = true;
+                while first || !stop.load(SeqCst) {
+                    first = false;
+                    buf.clear();
+                    let _ = write!(buf, "{:?}", g);
+                    formats += 1;
+                }
+                drop(g);
+                gate.wait();
+            }
+            rep.count("debug_formats_of_a_wait_mode_guard_while_a_flush_guard_was_taken", formats);
+        });
+        for _ in 0..n {
+            let sink = CountingSink::new();
+            let tok = rng.below(1 << 40) + 1000;
+            let mut parent: POwner = ParentM { x: tok + 2, y: tok + 3, ..Default::default() }.append_on_drop(sink.clone());
+            let fg0 = parent.flush_guard();
+            let mut g0 = parent.s0.open(OnParentDrop::Wait(fg0)).expect("first open");
+            g0.v0 = tok;
+            let g0 = Arc::new(g0);
+            *shared.lock().unwrap() = Some(g0.clone());
+            stop.store(false, SeqCst);
+            let spins = rng.below(300);
+            gate.wait();
+            for _ in 0..spins {
+                std::hint::spin_loop();
+            }
+            let fg = parent.flush_guard();
+            stop.store(true, SeqCst);
+            gate.wait();
+            let mut g1 = parent.s1.open(Child1 { v1: 0 }, OnParentDrop::Wait(fg)).expect("first open");
+            g1.v1 = tok + 1;
+            drop(parent);
+            let early = sink.snapshot().len();
+            drop(g1);
+            let early2 = sink.snapshot().len();
+            let g0 = Arc::try_unwrap(g0).ok().expect("the observer gave its reference back");
+            drop(g0);
+            let apps = sink.take();
+            rep.eval();
+            progress_tick();
+            let c = apps.first().map(content);
+            if early != 0 || early2 != 0 || apps.len() != 1 || c != Some((Some(tok + 2), Some(tok + 3), Some(tok), Some(tok + 1))) {
+                let kind = if early != 0 || early2 != 0 { "entry-appended-before-wait-mode-guard-dropped" } else if apps.len() != 1 { "entry-never-appended" } else { "wait-mode-slot-value-lost" };
+                rep.violation(kind, json!({"what": "slot 0 opened in wait mode; its guard Debug-formatted on another thread while the flush guard for slot 1 (wait mode) was taken; then parent, guard 1, guard 0 dropped in that order on one thread",
+                    "appended_after_parent_drop": early, "appended_after_guard1_drop": early2, "appended_at_end": apps.len(), "content(x,y,v0,v1)": format!("{c:?}"), "expected": format!("{:?}", (tok + 2, tok + 3, tok, tok + 1))}));
+                ok = false;
+                break;
+            }
+            rep.count("observed_flush_guard_rounds", 1);
+        }
+        quit.store(true, SeqCst);
+        gate.wait();
+    });
+    ok
 }
 
 fn main() {
@@ -605,8 +743,8 @@ fn main() {
     }
     rep.rule(
         "(a) EVERY single-thread op sequence up to length L over a parent with a Slot and a LazySlot: open(wait|discard) (also a second open), mutate through the guard, \
-         drop guard, wait_for_data, mutate/drop parent, create/drop a force-flush guard; after every op the number of appended entries and the content (parent fields, slot values as \
-         last mutated, absent when the guard was still alive) must equal the reference. (b) parent, slot guards and a force-flush guard dropped on separate threads released by a barrier, \
+         drop guard (also by unwinding), delay_flush on an open guard of either mode, wait_for_data, mutate/drop parent, create/drop a force-flush guard; after every op the number of appended entries and the content (parent fields, slot values as \
+         last mutated, absent when the guard was still alive) must equal the reference. (b) parent, slot guards and a force-flush guard dropped on separate threads released by a barrier (in part of them slot 0's wait-mode guard is Debug-formatted on another thread while slot 1's flush guard is taken), \
          perturbed at the hook between the guard's send and the release of its flush guard; assertions hold in every linearization. (c) random op sequences run inside a tokio task whose cooperative budget is used up. distinct = distinct op sequences / outcome classes",
     );
     let depth = args.get_u64("depth", args.by_tier(6, 7)) as usize;
@@ -663,6 +801,9 @@ fn main() {
                             rep.count("concurrent_histories", 1);
                         }
                         if rng.below(64) == 0 && !busy_task_histories(&mut rng, 20, rep) {
+                            return;
+                        }
+                        if rng.below(128) == 0 && !observed_flush_guard_rounds(&mut rng, 1000, rep) {
                             return;
                         }
                     }
